@@ -157,27 +157,97 @@ class World:
     def engine(self, opts=None):
         from . import monitors
         eng = Engine(self.lib, self.models, opts=opts or {})
-        monitors.install(eng)
+        monitors.install(eng, self)
         return eng
+
+    def server_layout(self):
+        """Where the Server value keeps what: {role: path inside Server}. Roles are the names of the PUBLIC fields of
+        Config (the documented configuration API) for everything Server::new copies from its Config argument - found by
+        interpreting Server::new, so Server's private fields may be renamed, reordered or grouped into helper structs -
+        plus three roles found by type / by construction: 'socket' (the UdpSocket), 'clients' (the HashMap) and
+        'largest_block_size' (the usize that Server::new initialises with a constant)."""
+        lay = getattr(self, "_server_layout", None)
+        if lay is not None:
+            return lay
+        prog = self.lib
+        lay = {}
+        CONFIG = "tftpd::config::Config"
+        if SERVER not in prog.adts:
+            self._server_layout = lay
+            return lay
+
+        def walk(adt_path, path, depth=0):
+            for i, f in enumerate(prog.adts[adt_path]["variants"][0]["fields"]):
+                t = prog.types[f["ty"]]
+                p2 = path + (i,)
+                if t["k"] == "adt" and t["path"].startswith("tftpd::") and t["path"] in prog.adts and prog.adts[t["path"]]["kind"] == "struct" and depth < 4:
+                    for x in walk(t["path"], p2, depth + 1):
+                        yield x
+                else:
+                    yield (p2, f["ty"], f["name"])
+
+        leaves = list(walk(SERVER, ()))
+        for (pth, ti, nm) in leaves:
+            ts = prog.types[ti]["s"]
+            if ts == "std::net::UdpSocket":
+                lay.setdefault("socket", pth)
+            elif ts.startswith("std::collections::HashMap<"):
+                lay.setdefault("clients", pth)
+        new = SERVER + "::new"
+        cfields = [f["name"] for f in prog.adts[CONFIG]["variants"][0]["fields"]] if CONFIG in prog.adts else []
+        if new in prog.bodies:
+            e = self.run("fn:" + new)
+            croot = ("P", ("L", e.entry_frame, 1), ())
+            for st in e.finals:
+                ret = st.store.get(("L", e.entry_frame, 0), {})
+                for k, v in ret.items():
+                    if k[:2] != (("v", 0), 0) or (k and k[-1] in ("$len", "$discr")):
+                        continue
+                    pth = tuple(k[2:])
+                    src = None
+                    if v[0] == "i" and not v[1][1]:
+                        ti = None
+                        for (lp, lti, _) in leaves:
+                            if lp == pth:
+                                ti = lti
+                        if ti is not None and prog.types[ti]["s"] == "usize":
+                            lay.setdefault("largest_block_size", pth)
+                        continue
+                    if v[0] == "i" and len(v[1][1]) == 1 and v[1][0] == 0 and v[1][1][0][1] == 1:
+                        nm = e.sym_names[v[1][1][0][0]]
+                        if isinstance(nm, tuple) and nm[0] == "init" and nm[1] == croot:
+                            src = tuple(nm[2])
+                    elif v[0] == "t" and isinstance(v[1], tuple) and v[1] and v[1][0] == "init" and v[1][1] == croot:
+                        src = tuple(v[1][2])
+                    if src and isinstance(src[0], int) and src[0] < len(cfields):
+                        rest = src[1:]
+                        if rest and pth[-len(rest):] == rest:
+                            pth = pth[:-len(rest)]
+                        lay.setdefault(cfields[src[0]], pth)
+        self._server_layout = lay
+        return lay
 
     def _compute(self, name):
         prog = self.lib
         if name == "listen":
+            lay = self.server_layout()
             eng = self.engine()
-            fi_lbs = prog.field_index(SERVER, "largest_block_size")
-            fi_dup = prog.field_index(SERVER, "duplicate_packets")
+            p_lbs = lay.get("largest_block_size")
+            p_dup = lay.get("duplicate_packets")
 
             def setup(e, st, fr):
                 # type invariant of Server (proved separately by the C05/C16 rules):
                 #   largest_block_size <= 65464, duplicate_packets <= 254
                 root = ("P", ("L", fr.id, 1), ())
-                if fi_lbs is not None:
-                    v = e.read(st, root, (fi_lbs,), _field_ty(prog, SERVER, fi_lbs))
-                    st.ctx.add(lin.le(v[1], lin.const(65464)))
-                    st.ctx.add(lin.le(lin.const(512), v[1]))
-                if fi_dup is not None:
-                    v = e.read(st, root, (fi_dup,), _field_ty(prog, SERVER, fi_dup))
-                    st.ctx.add(lin.le(v[1], lin.const(254)))
+                if p_lbs is not None:
+                    v = e.read(st, root, p_lbs, e.static_type(root, p_lbs))
+                    if v[0] == "i":
+                        st.ctx.add(lin.le(v[1], lin.const(65464)))
+                        st.ctx.add(lin.le(lin.const(512), v[1]))
+                if p_dup is not None:
+                    v = e.read(st, root, p_dup, e.static_type(root, p_dup))
+                    if v[0] == "i":
+                        st.ctx.add(lin.le(v[1], lin.const(254)))
 
             fr, finals = eng.run("tftpd::server::Server::listen", setup=setup, region="listener")
             eng.finals = finals
